@@ -899,3 +899,8 @@ META["C19"]["text"] += " For histories of ANY length and arbitrary id values, Ap
 META["C19"]["technique"] += "; inductive invariant with Apalache"
 META["C17"]["text"] += " The reference-count protocol (RefCountExact, NoDangling, NoLeak, StaticIntact) is additionally shown inductive with Apalache for histories of any length over arbitrary handle and buffer ids (spec/apalache/CowRefInd.tla: CowVector.tla with the element data erased)."
 META["C17"]["technique"] += "; inductive invariant of the reference-count protocol with Apalache"
+
+for _p in ("C01", "C02", "C03", "C05", "C07", "C08", "C13", "C14"):
+    META[_p]["technique"] += "; TLC model checking of the operational model LazyCdcl(W) for every admissible decision order; recorded executions re-run through the model (Trace_CdclW.tla)"
+META["C15"]["technique"] = "TLC model checking of AtMostOne.tla; TLA+ trace validation (TLC) of the encoder's real clause stream (Trace_Amo.tla) and of wide-package problems; recorded executions re-run through LazyCdclW"
+META["C04"]["technique"] += "; TLC model checking of LazyCdclW (assert-site invariants, termination under weak fairness)"
